@@ -88,7 +88,7 @@ func genRace(t *rapid.T) raceCase {
 				l = append(l, raceOp{Op: "lookup", CID: byte(rapid.IntRange(0, 0x7f).Draw(t, "cid")), Uplink: rapid.Bool().Draw(t, "up")})
 			case "register":
 				// a pool of proprietary CIDs that no generated frame carries; every goroutine owns its own CIDs so that results are deterministic
-				l = append(l, raceOp{Op: "register", CID: 0x80 + byte(g)*8 + byte(rapid.IntRange(0, 7).Draw(t, "pc")), Size: rapid.IntRange(1, 9).Draw(t, "size"), Uplink: rapid.Bool().Draw(t, "up")})
+				l = append(l, raceOp{Op: "register", CID: 0x80 + byte(g)*8 + byte(rapid.IntRange(0, 7).Draw(t, "pc")), Size: rapid.IntRange(0, 9).Draw(t, "size"), Uplink: rapid.Bool().Draw(t, "up")})
 			case "band":
 				l = append(l, raceOp{Op: "band", Band: string(rapid.SampledFrom(bandNames).Draw(t, "band"))})
 			case "netid":
